@@ -593,6 +593,23 @@ func boundedAcceptance() (ok bool) {
 			vars := cl.vars
 			if vars == nil {
 				vars = []claimVariant{{"good", cl.good, true}}
+			} else {
+				// value classes every claim is given on top of its own table: a boolean (never the right
+				// type), undefined (same verdict as null), and the "other string type" (a byte string
+				// where text is expected: the codec must not coerce one into the other)
+				vars = append([]claimVariant{}, vars...)
+				vars = append(vars, claimVariant{"bool", []byte{0xf5}, false})
+				for _, v := range cl.vars {
+					if v.name == "null" {
+						vars = append(vars, claimVariant{"undefined", []byte{0xf7}, v.ok})
+					}
+				}
+				for _, v := range cl.vars {
+					if v.ok && len(v.enc) > 0 && v.enc[0]>>5 == 3 {
+						vars = append(vars, claimVariant{"bstr-for-text", wBytes([]byte(string(v.enc[1:]))), false})
+						break
+					}
+				}
 			}
 			for _, v := range vars {
 				var kvs []kv
